@@ -6,6 +6,7 @@ import (
 	"crypto/sha256"
 	"encoding/binary"
 	"fmt"
+	"os"
 	"sort"
 	"strings"
 	"testing"
@@ -300,7 +301,8 @@ type c20Scenario struct {
 	withRewards           bool
 	withGenesisToken      bool // the collector's secondary asset is a genesis token of the app (the validating
 	// collector.SetCollectorLookupTable, through which InitGenesis imported before C20-F12 was repaired, wants that)
-	amt int64
+	amt      int64
+	liqBatch uint64 // batch size of the liquidation V1 sweep (small: the sweep offset matters)
 }
 
 // populate drives user messages (and the governance / wasm-binding entry points for configuration)
@@ -431,6 +433,11 @@ func c20Populate(w *c20World, ctx sdk.Context, sc c20Scenario, tr *tracer) {
 	}
 	if sc.withLiqSweep {
 		_ = a.LiquidationKeeper.WasmWhitelistAppIDLiquidation(ctx, w.app1)
+		a.LiquidationKeeper.SetParams(ctx, liquidationtypes.NewParams(sc.liqBatch))
+		// (auction V1 parameters of the app: a vault that the sweep liquidates in the random continuation
+		// gets its dutch auction)
+		a.AuctionKeeper.SetAuctionParams(ctx, auctiontypes.AuctionParams{AppId: w.app1, AuctionDurationSeconds: 300, Buffer: sdk.MustNewDecFromStr("1.2"),
+			Cusp: sdk.MustNewDecFromStr("0.6"), Step: sdk.NewIntFromUint64(1), PriceFunctionType: 1, SurplusId: 1, DebtId: 2, DutchId: 3, BidDurationSeconds: 300})
 		bctx := ctx.WithBlockHeight(ctx.BlockHeight() + 1).WithBlockTime(ctx.BlockTime().Add(6 * time.Second))
 		safely(func() { liquidation.BeginBlocker(bctx, abci.RequestBeginBlock{}, a.LiquidationKeeper) })
 	}
@@ -651,6 +658,11 @@ func TestC20(t *testing.T) {
 	only := envInt("VERIF_CASE", -1)
 	mods := c20Modules()
 	cdc := a.AppCodec()
+	nRand := 12 // random continuation steps per case (the plan is always drawn in full)
+	if os.Getenv("VERIF_TIER") == "thorough" {
+		nRand = c20RandPlanLen
+	}
+	nRand = envInt("VERIF_C20_RAND", nRand)
 
 	for ci := 0; ci < ncases; ci++ {
 		sc := c20Scenario{nVaults: 1 + r.intn(5), nLockers: r.intn(5), drawFee: r.pickI(0, 1, 1, 2, 5), nOrders: r.intn(5),
@@ -692,13 +704,15 @@ func TestC20(t *testing.T) {
 				sc.drawFee = 2
 			}
 		}
+		sc.liqBatch = r.pickU(2, 3, 200)
+		plan := c20DrawRandPlan(r)
 		if only >= 0 && ci != only {
 			continue
 		}
 		ctx, _ := base.CacheContext()
 		w := &c20World{t: t, a: a}
-		tr.p("case %d vaults=%d close=%d lockers=%d closel=%d fee=%d orders=%d liq=%s esm=%s sweep=%s rewards=%s gentoken=%s amt=%d", ci, sc.nVaults, sc.closeVault,
-			sc.nLockers, sc.closeLocker, sc.drawFee, sc.nOrders, b2s(sc.withLiquidity), b2s(sc.withEsm), b2s(sc.withLiqSweep), b2s(sc.withRewards), b2s(sc.withGenesisToken), sc.amt)
+		tr.p("case %d vaults=%d close=%d lockers=%d closel=%d fee=%d orders=%d liq=%s esm=%s sweep=%s batch=%d rewards=%s gentoken=%s amt=%d", ci, sc.nVaults, sc.closeVault,
+			sc.nLockers, sc.closeLocker, sc.drawFee, sc.nOrders, b2s(sc.withLiquidity), b2s(sc.withEsm), b2s(sc.withLiqSweep), sc.liqBatch, b2s(sc.withRewards), b2s(sc.withGenesisToken), sc.amt)
 		c20Populate(w, ctx, sc, tr)
 
 		// the two branches
@@ -717,13 +731,15 @@ func TestC20(t *testing.T) {
 			tr.p("imp %s %s", m.name, class)
 		}
 		c20DumpCompare(a, tr, mods, orig, reimp)
-		// continuation
-		for i, st := range c20Continuation(w, sc) {
+		// continuation: the fixed steps, then a random sequence of messages and blocks
+		fixedSteps := c20Continuation(w, sc)
+		for i, st := range fixedSteps {
 			bo, bn := c20Balances(w, orig), c20Balances(w, reimp)
 			co := st.run(orig)
 			cn := st.run(reimp)
 			tr.p("cont %d %s %s %d %s %s %d %d %d %d", i, st.name, st.depMod, st.depByte, co, cn, st.id(orig), st.id(reimp),
 				c20BalDelta(bo, c20Balances(w, orig)), c20BalDelta(bn, c20Balances(w, reimp)))
 		}
+		c20RunRandom(w, sc, plan, nRand, orig, reimp, tr, len(fixedSteps))
 	}
 }
